@@ -581,6 +581,8 @@ def gen_C06(r):
         scn["knobs"]["cpu_count"] = 2
         scn["history"].append({"op": "run", "target": op["target"], "flags": {"jobs": 2}, "cwd": "", "gap": 2.0, "scripts": {}})
         scn["enum"] = {"step": r.choice([0, 0, 1]), "budget": 24 if _tier() == "quick" else 400}
+        if r.random() < 0.3:
+            scn["enum"]["mode"] = "signal"
         return scn
     scn = _small_project(r)
     ops = []
@@ -629,6 +631,8 @@ def gen_C06(r):
     if ops[step].get("kill") is not None:
         ops[step] = {k: v for k, v in ops[step].items() if k != "kill"}
     scn["enum"] = {"step": step, "budget": 24 if _tier() == "quick" else 400}
+    if ops[step]["op"] == "run" and r.random() < 0.3:
+        scn["enum"]["mode"] = "signal"
     return scn
 
 
@@ -1106,6 +1110,13 @@ def gen_C18(r):
                                                       "path": M_.out_dir_rel(c) + "/" + S.split_tid(d)[1],
                                                       "files": ["mine.txt"]}]})
                 op["combine_conflict_hint"] = c
+        elif r.random() < 0.1:
+            # the run is killed right before / after the n-th link it makes (a half-updated combine directory
+            # stays behind); it is repeated with new versions afterwards
+            kop = dict(op, kill_fs={"name": r.choice(["symlink", "symlink", "unlink"]), "n": r.randint(1, 3),
+                                    "when": r.choice(["call", "ret"])})
+            ops.append(kop)
+            op = dict(op, flags=dict(op["flags"], again=True), gap=r.choice([1.0, 2.0]))
         elif k and r.random() < 0.15:
             # an old version directory deleted by hand to free space (the entry that points at it dangles), or
             # moved to another volume and replaced by a symbolic link
@@ -1344,7 +1355,19 @@ def _c05_template_reinserted(r, tasks, exps):
 _gen_C05_random = gen_C05
 
 
+def _c05_sigchld_ignored(r, scn):
+    """some commands are started by a parent that ignores SIGCHLD (the disposition survives exec)"""
+    for op in scn["history"]:
+        if op["op"] in ("run", "where") and r.random() < 0.06:
+            op["sig_ign"] = ["CHLD"]
+    return scn
+
+
 def gen_C05(r):  # noqa: F811
+    return _c05_sigchld_ignored(r, _gen_C05_templates(r))
+
+
+def _gen_C05_templates(r):
     c = r.random()
     if c < 0.45:
         return _gen_C05_random(r)
